@@ -64,6 +64,21 @@ def checkOrder (role : Role) (preferSrflx : Bool) (locals remotes : List PCand) 
   let ps := sortByPriority role (formPairs role locals remotes)
   if preferSrflx then sortPreferSrflx role ps else ps
 
+/-- the preamble of `perform_connectivity_checks_async`: nothing happens unless the state is Checking and no pair is
+selected yet and there are remote candidates; a controlling agent WITHOUT any local candidate synthesizes one
+active-TCP local (address 0.0.0.0:0, modelled id `synthId`) per remote passive-TCP candidate; still no local →
+nothing. `none` = the function returns before the list is formed. -/
+def synthId : Nat := 99999
+def synthesized (remotes : List PCand) : List PCand :=
+  (remotes.filter (fun r => r.tcp && r.passive)).map (fun r =>
+    ⟨synthId, priorityForTcp .host r.component .active, true, r.component, false, true, false, true, false⟩)
+
+def checkPass (checking hasSelected : Bool) (role : Role) (preferSrflx : Bool) (locals remotes : List PCand) : Option (List PPair) :=
+  if !checking || hasSelected || remotes.isEmpty then none
+  else
+    let locals' := if locals.isEmpty && role = .controlling then synthesized remotes else locals
+    if locals'.isEmpty then none else some (checkOrder role preferSrflx locals' remotes)
+
 /-! ### what is done with the checks that succeeded (the part that decides which pair is USED) -/
 
 /-- `successful_pairs.sort_by_key(|p| Reverse(p.priority(role)))` followed by `[0]` / `.first()`: the stable
